@@ -44,6 +44,19 @@ Proof. exact scoping_correct_core_thm. Qed.
 Print Assumptions scoping_correct_core.
 
 Open Scope N_scope.
+(* fuel adequacy: in the core fragment recursion is structural; with more fuel than statements
+   neither interpreter runs out of fuel, so the equality above is about genuine results *)
+Theorem C03_fuel_adequate : forall (pynorm : name -> name) (priv : name -> bool) d p fuel,
+  core_prog p = true -> wf_names p = true -> noalias pynorm p = true -> guard_rbw p d = true ->
+  (ssize_l p < fuel)%nat ->
+  srender priv d fuel p <> Err EFuel /\ frender pynorm priv d fuel p <> Err EFuel.
+Proof.
+  intros pynorm priv d p fuel Hc Hw Hn Hg Hs. split.
+  - exact (fuel_adequate_thm priv d p fuel Hc Hs).
+  - rewrite (scoping_correct_core pynorm priv d p Hc Hw Hn Hg fuel). exact (fuel_adequate_thm priv d p fuel Hc Hs).
+Qed.
+Print Assumptions C03_fuel_adequate.
+
 (* the guards are needed.  a = 10, b = 11, i = 12, x = 13 *)
 Definition idn (x : name) : name := x.
 Definition nopriv (x : name) : bool := false.
